@@ -40,6 +40,10 @@ def make(c, stochastic):
       return Q.quantized_po2(c["bits"], max_value=mv, use_stochastic_rounding=stochastic)
     return Q.quantized_relu_po2(c["bits"], max_value=mv, use_stochastic_rounding=stochastic)
   k = c["kind"]
+  if c["fam"] == "sb":     # stochastic_binary with the hard sigmoid: an exactly predictable training-phase mechanism
+    from common import undy
+    return (Q.stochastic_binary(alpha=None, temperature=undy(c["temp"]), use_real_sigmoid=False) if stochastic
+            else Q.binary(alpha=None))
   if k in ("po2_quad", "relu_po2_quad"):    # quadratic_approximation: only "inference = the deterministic configuration"
     mv = 2.0 ** c["mvk"] if c["hasmv"] else None
     ctor = Q.quantized_po2 if k == "po2_quad" else Q.quantized_relu_po2
@@ -67,6 +71,8 @@ def inputs(c, rnd, tier):
       for m in (1.0, 1.0625, 1.25, 1.5, 1.75, 1.9375):
         xs += [m * 2.0 ** k, -m * 2.0 ** k]
     return [f32(xs)]
+  if c["fam"] == "sb":
+    return [f32([rnd.uniform(-0.4, 0.4) for _ in range(30)] + [0.0, -0.0, 1.0, -1.0, 0.0625, -0.0625, 0.125, -0.125, 1.0 / 6, -1.0 / 6, 3.0])]
   a = f32([rnd.uniform(-2, 2) for _ in range(12)] + [0.0, 0.4, -0.4, 1.0])
   b = f32([[rnd.uniform(-2, 2) for _ in range(3)] for _ in range(4)])
   return [a, b]
@@ -89,7 +95,7 @@ def main():
         errors.append({"k": "exc_deterministic", "c": ci + 1, "exc": repr(e)[:300]})
         continue
       plan = [(0, 0.5)]
-      if c["fam"] in ("fixed", "po2"):
+      if c["fam"] in ("fixed", "po2", "sb"):
         draws = DRAWS if tier == "thorough" else rnd.sample(DRAWS[1:-1], 3) + [DRAWS[0], DRAWS[-1]]
         if c["fam"] == "po2":
           draws = [d for d in draws if d > 0]
